@@ -28,6 +28,8 @@ pub struct RawTableInner {
     /// ghost view of the element storage: the identity of the element held by each bucket (used by unit
     /// rehash; control-byte operations leave it alone)
     pub elems: Ghost<Seq<int>>,
+    /// ghost log of the buckets whose element has been dropped in place, in order (used by unit guard)
+    pub drop_log: Ghost<Seq<int>>,
 }
 
 pub open spec fn spec_is_pow2(x: usize) -> bool {
@@ -177,6 +179,7 @@ impl RawTableInner {
             final(self).growth_left == old(self).growth_left,
             final(self).items == old(self).items,
             final(self).elems == old(self).elems,
+            final(self).drop_log == old(self).drop_log,
     {
         self.ctrl.set(i, t.0);
     }
@@ -199,6 +202,7 @@ impl RawTableInner {
             final(self).growth_left == old(self).growth_left,
             final(self).items == old(self).items,
             final(self).elems == old(self).elems,
+            final(self).drop_log == old(self).drop_log,
     {
         unimplemented!()
     }
@@ -212,6 +216,7 @@ impl RawTableInner {
             final(self).growth_left == old(self).growth_left,
             final(self).items == old(self).items,
             final(self).elems == old(self).elems,
+            final(self).drop_log == old(self).drop_log,
     {
         unimplemented!()
     }
@@ -227,6 +232,7 @@ impl RawTableInner {
             final(self).growth_left == old(self).growth_left,
             final(self).items == old(self).items,
             final(self).elems == old(self).elems,
+            final(self).drop_log == old(self).drop_log,
     {
         unimplemented!()
     }
